@@ -44,6 +44,10 @@ let handle (toks : string list) : string =
     let id = n_of_int (try Hashtbl.find inv_ids (int_of_string a.(1)) with Not_found -> 999999) in
     let (s', r) = if a.(0) = "ACCEPT" then W.accept_welcome !st id else W.decline_welcome !st id in
     st := s'; fingerprint (res_name r)
+  | "KICK" ->
+    let applied = (try L.assoc "applied" facts = "1" with Not_found -> false) in
+    if applied then st := W.evict !st (n_of_int 2);
+    fingerprint (if applied then "ok" else "err")
   | "MSG" ->
     let stored = (try L.assoc "stored" facts = "1" with Not_found -> false) in
     if stored then st := W.note_message !st (n_of_int (int_of_string a.(1))) (n_of_int (int_of_string a.(2)));
